@@ -28,7 +28,7 @@ CLAIMED = {
 }
 CLAIMED.update({
  "C05": dict(category="other",
-   text=STRUCT_TXT % "SetSketcher::merge rejects on every parameter copied by new before its first effect (dominance), it leaves before the join only through those rejections, its only register effect is the element-wise max over the full range, lower_k is only set to 0 or raised to a min-fold of the registers, register writes of SuperMinHash/SetSketcher are guarded improvements, the histogram bound of SuperMinHash is right from the constructor on; no register field is mutated through a reference (ALIAS)",
+   text=STRUCT_TXT % "SetSketcher::merge rejects on every parameter copied by new before its first effect (dominance), it leaves before the join only through those rejections, its only register effect is the element-wise max over the full range, lower_k is only set to 0 or raised to a min-fold of the registers, register writes of SuperMinHash/SetSketcher are guarded improvements, the histogram bound of SuperMinHash is right from the constructor on, every item is offered to the registers (no return before the last register write, draw loops left only when no register can improve, batch entry points are per-element delegations), reinit re-establishes the constructor state; no register field is mutated through a reference (ALIAS)",
    technique="custom static analysis over rustc HIR: dominance of rejecting comparisons over effects, write-shape matching, who-may-write rule for lower_k",
    ref="DESIGN.md §4 C05"),
  "C06": dict(category="other",
@@ -60,7 +60,7 @@ CLAIMED.update({
    technique="field effect analysis (live-in / must-kill / mutated summaries) and initialisation-spec comparison over rustc HIR",
    ref="DESIGN.md §4 C13"),
  "C14": dict(category="other",
-   text=STRUCT_TXT % "the six counting estimators match the template length-check / full-range loop / count of equal same-index pairs / count over length, aliases are pure delegations, every panic edge of the estimators is a precondition, machine-discharged or individually argued, and the MLE optimiser's start value is clamped into a bracket within [0,1]",
+   text=STRUCT_TXT % "the six counting estimators match the template length-check (nothing but the length report leaves them before the count) / full-range loop / count of equal same-index pairs / count over length, aliases are pure delegations, every panic edge of the estimators is a precondition, machine-discharged or individually argued, and the MLE optimiser's start value is clamped into a bracket within [0,1]",
    technique="template matching and sibling comparison over rustc HIR, panic-edge inventory on MIR, clamp-chain rule against the external solver's contract",
    ref="DESIGN.md §4 C14"),
  "C01": dict(category="other",
